@@ -1,16 +1,20 @@
 // Finding 1 (C03): refuse-writes lands between the writer's check and its sleep.
 // channel.c must be compiled with -Dcondition_variable_wait=hooked_wait.
-// channel_accept_writes takes no lock, so calling it at the hook point is a
-// legal interleaving of another thread's abort.
+// A second thread calls channel_accept_writes(.,0) at the hook point (after the
+// writer's check, before its sleep) and is given 300 ms to run. Without the
+// lock around the store it finishes store+notify before the writer sleeps
+// (lost wake-up); with the lock it blocks until the wait releases the mutex.
 #include "runtime/channel.h"
 #include <stdio.h>
 #include <unistd.h>
 #include <signal.h>
+#include <pthread.h>
 static struct channel c;
 static int inject=0;
 void real_wait(struct condition_variable* cv, struct lock* l);
+static void* refuse(void*a){ channel_accept_writes(&c,0); return 0; }
 void hooked_wait(struct condition_variable* cv, struct lock* l){
-  if(inject){ inject=0; channel_accept_writes(&c,0); }
+  if(inject){ inject=0; pthread_t t; pthread_create(&t,0,refuse,0); usleep(300000); }
   real_wait(cv,l);
 }
 static void on_alarm(int s){ printf("HANG: writer still asleep 2s after writes were refused\n"); _exit(1);}
